@@ -78,47 +78,54 @@ structure Result where
   dates : List PyDate
   termination : PyDate
 
+/-- The unadjusted/adjusted date lists built by the two generation branches (before the effective date
+is put first and the termination date adjusted). -/
+def body (p : Params) (fuel : Nat) : Except PyErr (List PyDate) :=
+  if p.backward then
+    match backwardLoop o p fuel 0 p.termination [] with
+    | .error e => .error e
+    | .ok un =>
+      -- un = [T, T−p, …, pcd]; adjusted = [pcd] ++ adjust(reverse interior) ++ [T]
+      let pcd := un.getLast?.getD p.termination
+      let interior := (un.drop 1).dropLast.reverse
+      match mapE o.adjust interior with
+      | .error e => .error e
+      | .ok adj => .ok ([pcd] ++ adj ++ [p.termination])
+  else
+    match forwardLoop o p fuel 1 p.effective [p.effective] with
+    | .error e => .error e
+    | .ok un =>
+      -- un = [E, E, E+p, …]; adjusted = adjust(un[1:]) ++ [T]
+      match mapE o.adjust (un.drop 1) with
+      | .error e => .error e
+      | .ok adj => .ok (adj ++ [p.termination])
+
+/-- The common tail of `generate()`: first date := effective date; last date := adjusted termination
+date when requested; merge coinciding dates, reject disorder and fewer than two dates. -/
+def post (p : Params) (ds : List PyDate) : Except PyErr Result :=
+  -- the effective date is never adjusted: the first date is replaced by it
+  let ds1 := p.effective :: ds.drop 1
+  let tr : Except PyErr (List PyDate × PyDate) :=
+    if p.adjustTermination then
+      match o.adjust p.termination with
+      | .error e => .error e
+      | .ok t' => .ok (ds1.dropLast ++ [t'], t')
+    else .ok (ds1, p.termination)
+  match tr with
+  | .error e => .error e
+  | .ok (ds2, term) =>
+    match ds2 with
+    | [] => .error .finError
+    | first :: rest =>
+      match dedup first rest with
+      | .error e => .error e
+      | .ok out => if out.length < 2 then .error .finError else .ok { dates := out, termination := term }
+
 /-- `Schedule.generate()` as written. -/
 def generate (p : Params) (fuel : Nat) : Except PyErr Result :=
   if p.numMonths ≤ 0 then .error .other else
-  let body : Except PyErr (List PyDate) :=
-    if p.backward then
-      match backwardLoop o p fuel 0 p.termination [] with
-      | .error e => .error e
-      | .ok un =>
-        -- un = [T, T−p, …, pcd]; adjusted = [pcd] ++ adjust(reverse interior) ++ [T]
-        let pcd := un.getLast?.getD p.termination
-        let interior := (un.drop 1).dropLast.reverse
-        match mapE o.adjust interior with
-        | .error e => .error e
-        | .ok adj => .ok ([pcd] ++ adj ++ [p.termination])
-    else
-      match forwardLoop o p fuel 1 p.effective [p.effective] with
-      | .error e => .error e
-      | .ok un =>
-        -- un = [E, E, E+p, …]; adjusted = adjust(un[1:]) ++ [T]
-        match mapE o.adjust (un.drop 1) with
-        | .error e => .error e
-        | .ok adj => .ok (adj ++ [p.termination])
-  match body with
+  match body o p fuel with
   | .error e => .error e
-  | .ok ds =>
-    -- the effective date is never adjusted: the first date is replaced by it
-    let ds1 := p.effective :: ds.drop 1
-    let tr : Except PyErr (List PyDate × PyDate) :=
-      if p.adjustTermination then
-        match o.adjust p.termination with
-        | .error e => .error e
-        | .ok t' => .ok (ds1.dropLast ++ [t'], t')
-      else .ok (ds1, p.termination)
-    match tr with
-    | .error e => .error e
-    | .ok (ds2, term) =>
-      match ds2 with
-      | [] => .error .finError
-      | first :: rest =>
-        match dedup first rest with
-        | .error e => .error e
-        | .ok out => if out.length < 2 then .error .finError else .ok { dates := out, termination := term }
+  | .ok ds => post o p ds
 
 end FinVerif.Sched
